@@ -167,3 +167,13 @@ func funcOfValue(v ssa.Value) *ssa.Function {
 	}
 	return nil
 }
+
+// fieldName: name of field i of the struct that ptrT points to.
+func fieldName(ptrT types.Type, i int) string {
+	if p, ok := ptrT.Underlying().(*types.Pointer); ok {
+		if st, ok := p.Elem().Underlying().(*types.Struct); ok && i < st.NumFields() {
+			return st.Field(i).Name()
+		}
+	}
+	return ""
+}
